@@ -203,7 +203,7 @@ def _run(chk, replay):
         v = run_scenario(chk, sc, cfgseed, as_string)
         sigs = util.sig_str(sc["sig"], "str" if as_string else "list")
         s = sc["sig"]
-        triv = s[0] == "same" and s[1] == "byfile" and s[3] == "first-mono" and s[4] == "second-mono" and s[5] == "None" and s[6] == "None"
+        triv = s[0] == "same" and s[1] == "byfile" and s[4] == "first-mono" and s[5] == "second-mono" and s[6] == "None" and s[7] == "None"
         chk.executed(sigs, not triv, sample={"in1": sc["in1"], "in2": sc["in2"], "v1": sc["v1"], "v2": sc["v2"],
                                              "rel": sc["rel"], "sched": sc["sched"]})
         chk.traces += 1
